@@ -178,6 +178,31 @@ pub fn drive()
                 }
             }
         }
+        // the identity the build actually uses is the one the dependency sorter attaches to the rule's node (it names the
+        // history file): it must behave the same way
+        if problem.is_none()
+        {
+            let node_identity = |r : &Rule| -> Option<String>
+            {
+                match crate::sort::topological_sort_all(vec![r.clone()])
+                {
+                    Ok(pack) if pack.nodes.len() == 1 => Some(pack.nodes[0].rule_ticket.human_readable()),
+                    _ => None,
+                }
+            };
+            if let (Some(na), Some(nb)) = (node_identity(&a), node_identity(&b))
+            {
+                tally.counts.inc("pairs_also_through_the_sorter");
+                if (na == nb) != same_canon
+                {
+                    problem = Some(("plan-identity-mismatch".to_string(), format!("the identities attached to the build plan of {:?} and {:?} are equal = {}, canonical forms equal = {}", a, b, na == nb, same_canon)));
+                }
+                else if na != a.get_ticket().human_readable()
+                {
+                    problem = Some(("plan-identity-differs-from-rule-identity".to_string(), format!("rule {:?} gets a different identity in the build plan than from the rule itself", a)));
+                }
+            }
+        }
         if let Some((signature, what)) = problem
         {
             if reported.len() < 30 && reported.insert(format!("{}:{}", signature, kind))
